@@ -336,8 +336,23 @@ type Case struct {
 
 // Observe delivers c.Raw inside the block in progress and renders the trace line.
 func (l *Lab) Observe(c Case) (line string, res abci.ResponseDeliverTx, nontrivial bool) {
+	return l.ObserveAt(c, false)
+}
+
+// ObserveAt is Observe; with haltProbe the transaction is not delivered: the real ante handler is
+// run on a dropped cache with a context whose block height is codec.CodecChainHaltHeight (the
+// height cannot be reached cheaply by a real chain: BeginBlock insists on consecutive heights), and
+// the line (operation `probe`) reports the ante handler's own writes as the state change.
+func (l *Lab) ObserveAt(c Case, haltProbe bool) (line string, res abci.ResponseDeliverTx, nontrivial bool) {
 	n := l.N
 	ctx := l.Ctx()
+	op := "tx"
+	if haltProbe {
+		hdr := ctx.BlockHeader()
+		hdr.Height = codec.CodecChainHaltHeight
+		ctx = ctx.WithBlockHeader(hdr).WithBlockHeight(hdr.Height)
+		op = "probe"
+	}
 	ak := n.App.VerifAccountKeeper()
 	rawHash := tmtypes.Tx(c.Raw).Hash()
 	idxHit := 0
@@ -347,7 +362,7 @@ func (l *Lab) Observe(c Case) (line string, res abci.ResponseDeliverTx, nontrivi
 	pre := l.Accounts(ctx)
 	preDigest := l.StoreDigest()
 	var sb strings.Builder
-	fmt.Fprintf(&sb, "tx %s raw=%s variant=%s idx=%d ", l.RulesField(ctx), hex.EncodeToString(rawHash[:10]), c.Variant, idxHit)
+	fmt.Fprintf(&sb, "%s %s raw=%s variant=%s idx=%d ", op, l.RulesField(ctx), hex.EncodeToString(rawHash[:10]), c.Variant, idxHit)
 	fmt.Fprintf(&sb, "accts=%s vals=%s apps=%s ", acctsField(pre), l.ValsField(ctx), l.AppsField(ctx))
 
 	// decode with the application's own decoder (height argument as in BaseApp.DeliverTx)
@@ -422,6 +437,24 @@ func (l *Lab) Observe(c Case) (line string, res abci.ResponseDeliverTx, nontrivi
 		}
 	}
 	midDigest := l.StoreDigest() // the probe must not have touched the working state
+	if haltProbe {
+		if midDigest != preDigest {
+			probe = "PROBE-LEAKED"
+		}
+		code := "-/0"
+		if strings.HasPrefix(probe, "abort:") {
+			code = probe[6:]
+		} else if probe == "panic" {
+			code = "sdk/1"
+		} else if probe == "-" {
+			code = "-/1"
+		}
+		if probeAccts == "-" {
+			probeAccts = acctsField(pre)
+		}
+		fmt.Fprintf(&sb, "=> probe=%s pacc=%s code=%s changed=%d post=%s", probe, probeAccts, code, b01(probeAccts != acctsField(pre)), probeAccts)
+		return sb.String(), res, nontrivial
+	}
 	res = l.Deliver(c.Raw)
 	post := l.Accounts(l.Ctx())
 	postDigest := l.StoreDigest()
